@@ -50,7 +50,11 @@ var dClients = []struct {
 	{mC2, append([]byte{1}, hMACs[mC2][:]...)},
 	{mC3, []byte("idA")},
 	{mC3, []byte("idB")},
+	{mC4, nil},
+	{mC5, []byte{1, 0xaa, 0xbb, 0xcc, 0xdd, 0xee, 0xff}},
 }
+
+const dN = 6 // number of client identities
 
 func (c dhcpCfg) nic() nicCfg {
 	w := gen.DefaultWorld()
@@ -121,13 +125,13 @@ type dOffer struct {
 
 type dLedger struct {
 	holder  map[netip.Addr]int // address -> identity index currently acknowledged
-	offered [4]dOffer          // outstanding offer per identity
-	lastXID [4][4]byte
-	capt    [4]bool
+	offered [dN]dOffer          // outstanding offer per identity
+	lastXID [dN][4]byte
+	capt    [dN]bool
 	// may[c] is the address the server may still regard as c's lease (C12: an ACK of it is legitimate).
 	// It is kept generously (until the lease time has passed or the client declines it), whereas holder
 	// is dropped eagerly: each side errs towards accepting.
-	may [4]netip.Addr
+	may [dN]netip.Addr
 }
 
 func (l *dLedger) holding(c int) (netip.Addr, bool) {
@@ -282,14 +286,14 @@ func runDHCPOn(tb drv.TB, rec *drv.Rec, sub string, h dhcpHistory, or dhcpOracle
 	violate := func(step int, sig, format string, args ...interface{}) bool {
 		return rec.Violation(tb, sub, sig, h, "step %d (%v): %s\nhistory: %s", step, h.Ops[step], fmt.Sprintf(format, args...), dhcpHistString(h))
 	}
-	offerPendingCapture := [4]bool{} // capture state when the outstanding offer was made
+	offerPendingCapture := [dN]bool{} // capture state when the outstanding offer was made
 	fresh := 0
 	for step, op := range h.Ops {
-		cl := dClients[op.C%4]
+		cl := dClients[op.C%dN]
 		mac := hMACs[cl.mac]
-		ident := op.C % 4
+		ident := op.C % dN
 		if op.Spoof && (op.K == "discover" || op.K == "request" || op.K == "decline" || op.K == "release") {
-			ident = (op.C + 1) % 4 // the identity is the client identifier presented, whatever chaddr it comes from
+			ident = (op.C + 1) % dN // the identity is the client identifier presented, whatever chaddr it comes from
 		}
 		captured := env.s.IsCaptured(hwOf(mac))
 		lan, gw, dns := h.Cfg.subnet(captured)
@@ -478,7 +482,7 @@ func runDHCPOn(tb drv.TB, rec *drv.Rec, sub string, h dhcpHistory, or dhcpOracle
 			if op.D == 1 {
 				d = 5 * time.Hour
 				led.holder = map[netip.Addr]int{} // every lease (4 h) has expired
-				led.may = [4]netip.Addr{}
+				led.may = [dN]netip.Addr{}
 			}
 			for i := range led.offered { // an offer is only good for seconds
 				if led.offered[i].ok {
